@@ -267,6 +267,21 @@ func checkC11(c C11Case, r *Rec) *Violation {
 		}
 		return nil
 	}
+	// undefined-variable mode: a program compiled NOW, while some of its variables are not registered
+	// yet (they go by name), still reads them after they were registered and a context was built
+	var early *eval.Expr
+	if c.Undefined {
+		cc.OperatorMap["c_tuple"] = func(_ *eval.Ctx, params []eval.Value) (eval.Value, error) {
+			return append([]eval.Value{}, params...), nil
+		}
+		names := c.Names
+		if len(names) > 24 {
+			names = names[:24]
+		}
+		if e, co := SafeCompile(cc, "(c_tuple "+strings.Join(names, " ")+")"); co.Panic == nil && co.Err == nil {
+			early = e
+		}
+	}
 	gapFilled := false
 	for _, s := range c.Steps {
 		before := snapshot()
@@ -445,6 +460,19 @@ func checkC11(c C11Case, r *Rec) *Violation {
 		}
 	}
 
+	if early != nil {
+		o := Safe(func() (eval.Value, error) { return early.Eval(ctx) })
+		got, ok := o.Val.([]eval.Value)
+		if o.Panic != nil || o.Err != nil || !ok {
+			return Violf("C11: a program compiled before its variables were registered (undefined-variable mode) cannot be evaluated over a context built afterwards: %v\n%s", o, describe())
+		}
+		for j := range got {
+			if !equalNormalised(got[j], want[j]) {
+				return Violf("C11: a program compiled before its variables were registered reads %v (%T) for %q, bound to %v, normalised %v\n%s", got[j], got[j], c.Names[j], c.Vals[j].X, want[j], describe())
+			}
+		}
+		r.Class("compiled-before-registration")
+	}
 	// the one-shot helper over the same layout (handed over with ExtendConf): the bindings map also
 	// holds the extra names the layout does not know
 	{
@@ -516,7 +544,7 @@ func equalNormalised(got, want interface{}) bool {
 
 var propC11 = Prop[C11Case]{
 	ID:    "C11",
-	Rule:  "registration histories: 1..40 (sometimes 100..126) names, a pre-populated key map with distinct keys from {-32768, -3..3, 250..260, 32760..32767, random int16, small}, then GetOrRegisterKey / RegVarAndOp batches / repeated requests / ExtendConf of a base config holding further names, in a drawn order, names sometimes those of keywords and operators (if, let, map, in, and ...), optionally undefined-variable mode with names left unregistered; bindings of every raw type the documentation lists (int, int8..int32, uint8..uint64, int64, []int, []int32, []int64, []string, time.Time, Duration, bool, string) at extremes. Oracle: after every step the key map is injective and no earlier assignment changed; (c_tuple v0 .. vn) and single-variable programs evaluate, through NewCtxFromVars (slice- or map-backed) and through the one-shot eval.Eval over the same layout, to the harness's own normalisation of the bound values. Non-trivial = the final layout has a key < 0, = 0, = 255, = 256 or > 256, or GetOrRegisterKey had to fill a gap; distinct by the whole history",
+	Rule:  "registration histories: 1..40 (sometimes 100..126) names, a pre-populated key map with distinct keys from {-32768, -3..3, 250..260, 32760..32767, random int16, small}, then GetOrRegisterKey / RegVarAndOp batches / repeated requests / ExtendConf of a base config holding further names, in a drawn order, names sometimes those of keywords and operators (if, let, map, in, and ...), optionally undefined-variable mode with names left unregistered; bindings of every raw type the documentation lists (int, int8..int32, uint8..uint64, int64, []int, []int32, []int64, []string, time.Time, Duration, bool, string) at extremes. Oracle: after every step the key map is injective and no earlier assignment changed; (c_tuple v0 .. vn) and single-variable programs evaluate, through NewCtxFromVars (slice- or map-backed) and through the one-shot eval.Eval over the same layout, to the harness's own normalisation of the bound values. In undefined-variable mode one program is compiled before the registration steps and evaluated after them. Non-trivial = the final layout has a key < 0, = 0, = 255, = 256 or > 256, or GetOrRegisterKey had to fill a gap; distinct by the whole history",
 	Gen:   genC11,
 	Check: checkC11,
 }
